@@ -142,7 +142,12 @@ def gen_cases(rng, tier):
         states = [0, 1] if dtype == "bool" else list(range(8))
         bad = rng.choice([0, 0, 0, 0.05, 0.3])
         a = _wave(rng, dtype, ncol, states, bad)
-        e = _wave(rng, dtype, ncol if rng.random() < 0.9 else rng.choice([0, 1, 2, 3]), states, bad)
+        # the expected waveform may have another state dtype (bool receiver against uint8 expected, ...)
+        edtype = dtype if rng.random() < 0.6 else rng.choice(DTYPES)
+        if dtype == "bool" and rng.random() < 0.4:
+            edtype = "uint8"
+        estates = [0, 1] if edtype == "bool" else list(range(8))
+        e = _wave(rng, edtype, ncol if rng.random() < 0.9 else rng.choice([0, 1, 2, 3]), estates, bad)
         twin = rng.random() < 0.2
         if twin:
             # the expected waveform is (nearly) a copy of the actual one, invalid values included: equal raw
